@@ -170,6 +170,8 @@ def gen_rpu():
     H['el_spatial_resampling_filter_flag']= True if cls in('7','7mel','4') else (pick(True,False) if cls in('0a','0b','5') else False)
     H['disable_residual_flag']= not dual
     if cls=='5': H['el_spatial_resampling_filter_flag']=pick(True,False)
+    # both flags set (never produced by the tool itself): still profile 8 by the classification rule
+    if cls=='8' and pick(0,0,0,1): H['el_spatial_resampling_filter_flag']=True
     H['vdr_dm_metadata_present_flag']=pick(True,True,True,False)
     H['use_prev_vdr_rpu_flag']=pick(False,False,False,True)
     H['prev_vdr_rpu_id']=uev() if H['use_prev_vdr_rpu_flag'] else 0
